@@ -77,16 +77,22 @@ SETTLE_BOUND = 400000  # event loop turns allowed for one settle, logical bound 
 # --------------------------------------------------------------------------------------
 
 FAMILY_POOL = ['ipv4 unicast', 'ipv6 unicast', 'ipv4 flow', 'l2vpn vpls']
-LAS_POOL = [65001, 65010, 4200000001]
-PAS_POOL = [65002, 65003, 65001]
-RID_POOL = ['10.0.0.1', '10.0.0.2', '10.0.0.3']
-LOCAL_POOL = ['127.0.0.1', '127.0.1.1']
+# values which are textual prefixes of one another on purpose (65001 / 650010, 10.0.0.1 / 10.0.0.10, 127.0.0.2 / 127.0.0.20,
+# 2001:db8::5 / 2001:db8::5:1): a selector term must match a whole value, never the beginning of one
+LAS_POOL = [65001, 65010, 4200000001, 650010]
+PAS_POOL = [65002, 65003, 65001, 650020]
+RID_POOL = ['10.0.0.1', '10.0.0.2', '10.0.0.3', '10.0.0.10']
+LOCAL_POOL = ['127.0.0.1', '127.0.1.1', '127.0.1.10']
+PEER4_POOL = ['127.0.0.2', '127.0.0.3', '127.0.0.4', '127.0.0.5', '127.0.0.20', '127.0.0.22', '127.0.0.200']
+PEER6_POOL = ['2001:db8::5', '2001:db8::5:1', '2001:db8::50', '2001:db8::5:1:1']
 
 
 def gen_neighbors(r: random.Random) -> list[dict]:
     nbs = []
-    peers = ['127.0.0.2', '127.0.0.3', '127.0.0.4', '127.0.0.5']
+    peers = ['127.0.0.2'] + sorted(r.sample(PEER4_POOL[1:], 3), key=PEER4_POOL.index)
     v6 = r.random() < 0.4
+    n6 = r.choice([1, 2, 2]) if v6 else 0
+    six = sorted(r.sample(PEER6_POOL, n6), key=PEER6_POOL.index) if n6 else []
     for i, peer in enumerate(peers):
         fams = [f for f in FAMILY_POOL if r.random() < 0.6]
         if not fams:
@@ -101,8 +107,8 @@ def gen_neighbors(r: random.Random) -> list[dict]:
             'session': 'in-open',
             'watchdog': [],
         }
-        if i == 3 and v6:
-            nb['peer'] = '2001:db8::5'
+        if i >= 4 - n6:
+            nb['peer'] = six[i - (4 - n6)]
             nb['local'] = '2001:db8::1'
         nbs.append(nb)
     # every family is configured somewhere, ipv4 unicast at least twice
@@ -227,7 +233,12 @@ def gen_selector(r: random.Random, nbs: list[dict], syntax: str):
             terms[-1] = (k, other_value(r, k, nbs, None))
         return [('*', terms)], form
     if form == 'nomatch-ip':
-        return [(r.choice(['127.0.0.99', '10.255.255.1', '2001:db8::99']), true_terms(r, nb, r.randint(0, 1)))], form
+        peer = nb['peer']
+        sep = ':' if ':' in peer else '.'
+        near = [peer.rsplit(sep, 1)[0], peer + '0', peer + sep + '1', '1' + peer, peer[:-1] if peer[-1] not in '.:' and peer[:-1][-1:] not in '.:' else peer + '9']
+        near = [x for x in near if x not in [n['peer'] for n in nbs]]
+        pool = ['127.0.0.99', '10.255.255.1', '2001:db8::99'] + near + near
+        return [(r.choice(pool), true_terms(r, nb, r.randint(0, 1)))], form
     if form == 'contradict':
         k = r.choice(['local-as', 'peer-as', 'router-id'])
         v = nb[TERM_FIELD[k]]
